@@ -4,7 +4,7 @@ use parking_lot::RwLock;
 use super::RuntimeResult;
 use crate::{
     io::{
-        logger::{Alter, Begin, Commit, Create, Delete, DropOp, End, Insert, Operation, Update},
+        logger::{Abort, Alter, Begin, Commit, Create, Delete, DropOp, End, Insert, Operation, Update},
         pager::{BtreeBuilder, SharedPager},
     },
     multithreading::coordinator::{Snapshot, TransactionHandle},
@@ -125,7 +125,7 @@ impl TransactionLogger {
     }
 
     pub(crate) fn log_abort(&self) -> RuntimeResult<()> {
-        self.log_operation(Commit)?;
+        self.log_operation(Abort)?;
         Ok(())
     }
 
@@ -248,6 +248,11 @@ impl TransactionContext {
 
     pub(crate) fn snapshot(&self) -> Snapshot {
         self.handle.read().snapshot().clone()
+    }
+
+    /// True while the transaction can still be committed or aborted through this context.
+    pub(crate) fn is_open(&self) -> bool {
+        self.handle.read().can_commit()
     }
 
     pub(crate) fn handle_cloned(&self) -> TransactionHandle {
